@@ -198,16 +198,8 @@ def run(ctx):
                 else:
                     ctx.violated(r3, f, f"{q} [none] operands", "the name-clash test does not compare the left with the right workspace", node=none_arm)
     jm = m.funcs["_join_measurements"]
-    txt = A.unparse(jm.node)
-    if "incompatible_poi" in txt and "['config']['poi']" in txt and "_join_parameter_configs" in txt:
-        ctx.holds(r3, f"{WS}::_join_measurements [outer]", "POI conflict and parameter-config conflict checked")
-    else:
-        ctx.violated(r3, jm, "POI / parameter conflicts", "measurements with the same name but different POI or parameter configs are merged silently", node=jm.node)
     jp = m.funcs["_join_parameter_configs"]
-    if any(_exc(r) == "InvalidWorkspaceOperation" for r in ast.walk(jp.node) if isinstance(r, ast.Raise)):
-        ctx.holds(r3, f"{WS}::_join_parameter_configs", "incompatible parameter configs refused")
-    else:
-        ctx.violated(r3, jp, "parameter config conflict", "incompatible parameter configurations are no longer refused", node=jp.node)
+    _measurement_joins(ctx, r3, repo, m, jm)
     cb = ws.methods["combine"]
     first_join = min([c.lineno for c in A.calls_in(cb.node) if (A.call_attr(c) or "").startswith("_join_")] or [10 ** 9])
     checks = [n for n in ast.walk(cb.node) if isinstance(n, ast.If) and n.lineno < first_join and any(isinstance(r, ast.Raise) for r in ast.walk(n))]
@@ -365,6 +357,9 @@ def _namespaces(ctx, rid, pr):
             "version": "1.0.0",
         }
 
+    ctor_copies = _ctor_deepcopies(ctx.repo.cls(WS, "Workspace").methods["__init__"])
+    rec_alias = []
+
     def run_op(**opts):
         wsd = mk()
         attrs = {"modifiers": [("m1", "normsys"), ("m2", "histosys"), ("m2", "normsys"), ("m3", "lumi")], "samples": ["s1", "s2"], "channels": ["c1", "c2"], "measurement_names": ["meas1", "meas2"]}
@@ -373,7 +368,17 @@ def _namespaces(ctx, rid, pr):
             if p != "self":
                 env[p] = opts.get(p)
         out = []
-        Interp(env, attrs, {}, cls_name="Workspace", externals={"Workspace": lambda a, k: (out.append(a[0]) or Obj("WS"))}).run(A.strip_docstring(pr.node.body))
+        import copy as _copy
+
+        def ws_ctor(a, k):
+            # the constructor's own behaviour: an unconditional deep copy of `spec` on entry gives an independent object
+            out.append(_copy.deepcopy(a[0]) if ctor_copies and not ({kk for kk in k} - {"validate"}) else a[0])
+            return Obj("WS")
+
+        Interp(env, attrs, {}, cls_name="Workspace", externals={"Workspace": ws_ctor}).run(A.strip_docstring(pr.node.body))
+        shared = _shared_containers(out[0], wsd)
+        if shared:
+            rec_alias.append(shared)
         return out[0]
 
     def names(spec):
@@ -419,6 +424,10 @@ def _namespaces(ctx, rid, pr):
         else:
             k = sorted(diff)[0]
             ctx.violated(rid, pr, f"_prune_and_rename [{label}]", f"{label}: the `{k}` of the result are {diff[k][0]}, expected {diff[k][1]} (a name lives in several places of a workspace and must change in all of them, and nothing else may change)", expected=str(diff[k][1]), found=str(diff[k][0]))
+    if rec_alias:
+        ctx.violated(rid, pr, "prune / rename result shares data with its input", f"the workspace returned by prune/rename shares mutable containers with the workspace it was made from ({rec_alias[0][:3]}): editing one changes the other's specification and likelihood", expected="a new, independent workspace", found=f"{sum(len(x) for x in rec_alias)} shared container(s)")
+    else:
+        ctx.holds(rid, f"{WS}::_prune_and_rename [independence]", "no list/dict of the result is an object of the input" + ("" if ctor_copies else " (although the constructor does not deep-copy unconditionally)"))
     # identity: no options -> same names
     try:
         got = names(run_op())
@@ -428,3 +437,102 @@ def _namespaces(ctx, rid, pr):
             ctx.violated(rid, pr, "_prune_and_rename [no options]", "without options the rebuild changes names", found=str(got))
     except (Undecided, KeyError, TypeError) as e:
         ctx.unrecognised(rid, pr, "_prune_and_rename [no options]", str(e))
+
+
+def _measurement_joins(ctx, rid, repo, m, jm):
+    """_join_measurements (with _join_items and _join_parameter_configs) INTERPRETED on pairs of measurement lists."""
+    from ..alg import Poly
+    from ..objmodel import World
+    at = Poly.atom
+
+    def meas(name, poi, pars):
+        return {"name": name, "config": {"poi": poi, "parameters": [dict(p_) for p_ in pars]}}
+
+    P_A = {"name": "a", "inits": [at("ia")]}
+    P_A2 = {"name": "a", "inits": [at("ia_other")]}
+    P_B = {"name": "b", "fixed": True}
+    cases = [
+        ("none", [meas("m1", "mu", [P_A])], [meas("m2", "mu", [P_B])], ("ok", ["m1", "m2"])),
+        ("none", [meas("m1", "mu", [P_A])], [meas("m1", "mu", [P_A])], ("raise", None)),
+        ("outer", [meas("m1", "mu", [P_A])], [meas("m1", "mu", [P_B])], ("merged", {"m1": ("mu", ["a", "b"])})),
+        ("outer", [meas("m1", "mu", [P_A])], [meas("m1", "nu", [P_A])], ("raise", None)),
+        ("outer", [meas("m1", "", [P_A])], [meas("m1", "mu", [P_B])], ("raise", None)),
+        ("outer", [meas("m1", "mu", [P_B])], [meas("m1", "", [P_A])], ("raise", None)),
+        ("outer", [meas("m1", "mu", [P_A])], [meas("m1", "mu", [P_A2])], ("raise", None)),
+        ("outer", [meas("m1", "mu", [P_A])], [meas("m2", "nu", [P_B])], ("ok", ["m1", "m2"])),
+        ("left outer", [meas("m1", "mu", [P_A])], [meas("m1", "nu", [P_B]), meas("m2", "nu", [P_B])], ("merged", {"m1": ("mu", ["a"]), "m2": ("nu", ["b"])})),
+        ("right outer", [meas("m1", "mu", [P_A]), meas("m0", "mu", [P_A])], [meas("m1", "nu", [P_B])], ("merged", {"m1": ("nu", ["b"]), "m0": ("mu", ["a"])})),
+    ]
+    for join, left, right, (kind, want) in cases:
+        lab = f"join={join!r} left={[(x['name'], x['config']['poi'], [p_['name'] for p_ in x['config']['parameters']]) for x in left]} right={[(x['name'], x['config']['poi'], [p_['name'] for p_ in x['config']['parameters']]) for x in right]}"
+        site = f"{WS}::_join_measurements [{lab}]"
+        try:
+            w = World({"__strict__": True, "Counter": lambda a, k: _counter(a[0])}, module_env={"exceptions": Obj("exceptions"), "Workspace": Obj("Workspace", {"valid_joins": ["none", "outer", "left outer", "right outer"]}), "collections": Obj("collections"), "log": Obj("log")})
+            for q, f_ in m.funcs.items():
+                if "." not in q:
+                    w.add_func(f_)
+            out = w.call_func(jm, [join, left, right])
+            if kind == "raise":
+                ctx.violated(rid, jm, f"measurement join [{lab}]", "two measurements of the same name that do not agree (different POI -- an empty POI is a POI definition too -- or different settings for one parameter, or a join mode that forbids the overlap) are joined instead of refused", expected="raise InvalidWorkspaceOperation", found=str([(x["name"], x["config"]["poi"]) for x in out]))
+                continue
+            got = {x["name"]: (x["config"]["poi"], sorted(p_["name"] for p_ in x["config"]["parameters"])) for x in out}
+            wantd = {n: (None, None) for n in want} if kind == "ok" else want
+            ok = sorted(got) == sorted(wantd) and (kind == "ok" or all(got[n] == (wantd[n][0], sorted(wantd[n][1])) for n in wantd))
+            if ok and len(out) == len(got):
+                ctx.holds(rid, site, f"-> {got}")
+            else:
+                ctx.violated(rid, jm, f"measurement join [{lab}]", "the joined measurements are not the ones the join mode prescribes (each measurement once, POI kept, parameter settings united)", expected=str(wantd), found=str(got))
+        except RaisedInFragment as e:
+            if kind == "raise" and e.exc_name.split(".")[-1] == "InvalidWorkspaceOperation":
+                ctx.holds(rid, site, "refused with InvalidWorkspaceOperation")
+            elif kind == "raise":
+                ctx.violated(rid, jm, f"measurement join [{lab}]", f"refused with {e.exc_name}, not InvalidWorkspaceOperation")
+            else:
+                ctx.violated(rid, jm, f"measurement join [{lab}]", f"compatible measurements are refused with {e.exc_name}")
+        except (Undecided, KeyError, TypeError, ValueError, IndexError, AttributeError) as e:
+            ctx.unrecognised(rid, jm, f"measurement join [{lab}]", f"not interpretable: {type(e).__name__}: {e}")
+
+
+def _counter(items):
+    d = {}
+    for x in items:
+        d[x] = d.get(x, 0) + 1
+    from ..alg import Poly
+    return {k: Poly.const(v) for k, v in d.items()}
+
+
+def _ctor_deepcopies(init):
+    """Workspace.__init__ rebinds `spec` to copy.deepcopy(spec) on every path before any other use."""
+    g = CFG.build(init.node.body) if "CFG" in globals() else None
+    tops = A.strip_docstring(init.node.body)
+    for st in tops:
+        if isinstance(st, ast.Assign) and any(isinstance(t, ast.Name) and t.id == "spec" for t in st.targets) and isinstance(st.value, ast.Call) and A.call_attr(st.value) == "deepcopy":
+            return True
+        if any(isinstance(n, ast.Name) and n.id == "spec" for n in ast.walk(st)):
+            return False
+    return False
+
+
+def _shared_containers(a, b):
+    """Paths of list/dict objects of `a` that ARE (identity) objects reachable from `b`."""
+    ids = {}
+
+    def collect(x, path):
+        if isinstance(x, (list, dict)):
+            ids[id(x)] = path
+            for k_, v_ in (x.items() if isinstance(x, dict) else enumerate(x)):
+                collect(v_, f"{path}[{k_!r}]")
+
+    collect(b, "input")
+    out = []
+
+    def walk(x, path):
+        if isinstance(x, (list, dict)):
+            if id(x) in ids:
+                out.append(f"{path} is {ids[id(x)]}")
+                return
+            for k_, v_ in (x.items() if isinstance(x, dict) else enumerate(x)):
+                walk(v_, f"{path}[{k_!r}]")
+
+    walk(a, "result")
+    return out
